@@ -1,4 +1,4 @@
-"""Unit `types`: feel/src/types.rs (C16; termination of is_equivalent for C05)."""
+"""Unit `types`: feel/src/types.rs (C16; termination of is_equivalent and is_conformant for C05)."""
 import os, sys
 sys.path.insert(0, os.path.dirname(os.path.abspath(__file__)))
 import _common as C
@@ -52,13 +52,20 @@ UNIT = {
               'text': 'proof {\n  assert(entries_self@.dom().subset_of(entries_other@.dom()));\n  vstd::set_lib::lemma_subset_equality(entries_self@.dom(), entries_other@.dom());\n}'},
          ],
          },
+        {'kind': 'vrs', 'file': 'types/height.vrs'},
         # ---------------------------------------------------------------- is_conformant
         {'kind': 'fn', 'src': 'feel/src/types.rs', 'path': 'impl FeelType::fn is_conformant',
          'key': 'types::FeelType::is_conformant',
          'props': ['C16'], 'auto_props': ['C16', 'C05'],
          'ret': 'r',
-         'attrs': '#[verifier::exec_allows_no_decreases_clause]',
+         'decreases': 'height(*self) + height(*other)',
          'ensures': [('post_conf', 'r == conf(*self, *other)')],
+         'splices': [
+             {'id': 'both_entries_are_lower', 'op': 'before', 'anchor': 'if !type_self.is_conformant(type_other) {', 'props': ['C05', 'C16'],
+              'text': 'proof { lemma_h_ctx(*entries_self, *name); lemma_h_ctx(*entries_other, *name); }'},
+             {'id': 'both_parameters_are_lower', 'op': 'before', 'anchor': 'if !parameter_other.is_conformant(&parameters_self[i]) {', 'props': ['C05', 'C16'],
+              'text': 'proof { lemma_h_fn(*parameters_self, *result_self, i as int); lemma_h_fn(*parameters_other, *result_other, i as int); }'},
+         ],
          'body_prefix': 'broadcast use vstd::std_specs::btree::group_btree_axioms;\nproof { axiom_name_key(); }',
          'rewrites': [('R2', 0), ('R1', 1)],
          'loops': 2,
@@ -173,11 +180,10 @@ NOT_DECIDED = {
     'C11': ['output side: FeelType::coerced itself is decided here (wrap into / unwrap from a singleton list, null otherwise); where it is applied to decision / BKM / decision service results is not'],
     'C16': [
         'where coercion is applied during function invocation / decision output (closure wiring in feel-evaluator builders and model-evaluator)',
-        'termination of is_conformant (its parameter loop calls itself with self and other SWAPPED, so neither argument alone decreases; exec_allows_no_decreases_clause)',
         'get_value_checked / get_conformant_value (not part of the property)',
     ],
     'C05': [
-        'only is_equivalent is proved terminating here; no arithmetic in this unit',
+        'is_equivalent, is_conformant (decreases: the sum of the heights of both arguments - its parameter loop swaps them) and type_of are proved terminating; no arithmetic in this unit',
     ],
 }
 ASSUMPTIONS = [
